@@ -99,7 +99,8 @@ CLASS_LEVEL = (
     [("def", n, v) for n in ("a", "b") for v in CLASS_DEF_VARIANTS]
     + [("assign", n, v) for n in ("a", "b") for v in ASSIGN_VARIANTS]
     + [("assign", "a", "classvar"), ("class", "a", "attr"), ("import", "a", "from m import n"), ("chain",), ("string",)]
-    + [("block", k, tuple((a,) for a in arms)) for k in ("if", "tc", "tc-nested-if", "try-except") for arms in itertools.product(ARM_LEAVES_SMALL, repeat=ARMS[k])]
+    + [("block", k, tuple((a,) for a in arms)) for k in ("if", "tc", "tc-nested-if", "try-except")
+       for arms in itertools.product(ARM_LEAVES_SMALL + [("def", "a", "property"), ("def", "b", "staticmethod")], repeat=ARMS[k])]
     + [("def", "__init__", "init"), ("def", "__init__", "init-cond"), ("def", "__init__", "init-ann")]
 )
 VIS_NAMES = ["a", "_p", "__m", "__d__"]
